@@ -93,7 +93,8 @@ def replay(inputs, doc):
                 exc = e
         left = [n for n in _listing(d) if n != "final.json"]
         return (not left), "fault: KeyboardInterrupt delivered in os.fsync; raised=%r final=%r left-behind=%r" % (exc, final.read_bytes(), left)
-    if ob.startswith("atomic_write_bytes[short-write]/"):
+    if ob.startswith("atomic_write_bytes") and "temp-holds-complete-data" in ob:
+        short_fault = "[short-write]" in ob
         d = _scratch()
         final = d / "final.json"
         final.write_bytes(b"OLD")
@@ -118,9 +119,10 @@ def replay(inputs, doc):
             def __exit__(self, *a):
                 return self.f.__exit__(*a)
 
-        def fake_open(p, mode="r", *a, **k):
-            fo = real_open(p, mode, *a, **k)
-            return Short(fo) if mode == "wb" else fo
+        def fake_open(p, mode="r", buffering=-1, *a, **k):
+            fo = real_open(p, mode, buffering, *a, **k)
+            # only a *raw* handle (buffering=0) can be short; a BufferedWriter retries until everything is written
+            return Short(fo) if (short_fault and mode == "wb" and buffering == 0) else fo
         seen = {}
         real_replace = A.atomic_replace
 
@@ -130,7 +132,7 @@ def replay(inputs, doc):
         with mock.patch.object(builtins, "open", fake_open), mock.patch.object(A, "atomic_replace", spy):
             A.atomic_write_bytes(final, data)
         ok = seen.get("tmp") == data
-        return ok, "fault: raw write() is short; temp before install=%r, data=%r, final afterwards=%r" % (seen.get("tmp"), data, final.read_bytes())
+        return ok, ("fault: raw write() is short (raw handles only); " if short_fault else "no fault; ") + "temp before install=%r, data=%r, final afterwards=%r" % (seen.get("tmp"), data, final.read_bytes())
     # generic scenarios (these clauses hold on the unchanged tree; they let a seeded mutant be confirmed natively)
     if ob.startswith("atomic_write_bytes") and "/post-exc:temp-left" in ob:
         d = _scratch()
